@@ -6,6 +6,7 @@ import (
 	"io"
 	"math"
 	"net"
+	"sync"
 	"sync/atomic"
 	"time"
 )
@@ -59,6 +60,10 @@ func NetConn(ctx context.Context, c *Conn, msgType MessageType) net.Conn {
 	nc.readCtx, nc.readCancel = context.WithCancel(ctx)
 
 	nc.writeTimer = time.AfterFunc(math.MaxInt64, func() {
+		// One expiry at a time: a second expiry must not mistake the first one,
+		// which briefly holds writeMu, for an active write.
+		nc.writeTimerMu.Lock()
+		defer nc.writeTimerMu.Unlock()
 		if !nc.writeMu.tryLock() {
 			// If the lock cannot be acquired, then there is an
 			// active write goroutine and so we should cancel the context.
@@ -77,6 +82,8 @@ func NetConn(ctx context.Context, c *Conn, msgType MessageType) net.Conn {
 	}
 
 	nc.readTimer = time.AfterFunc(math.MaxInt64, func() {
+		nc.readTimerMu.Lock()
+		defer nc.readTimerMu.Unlock()
 		if !nc.readMu.tryLock() {
 			// If the lock cannot be acquired, then there is an
 			// active read goroutine and so we should cancel the context.
@@ -106,17 +113,19 @@ type netConn struct {
 	c       *Conn
 	msgType MessageType
 
-	writeTimer  *time.Timer
-	writeMu     *mu
-	writeCtx    context.Context
-	writeCancel context.CancelFunc
+	writeTimer   *time.Timer
+	writeTimerMu sync.Mutex
+	writeMu      *mu
+	writeCtx     context.Context
+	writeCancel  context.CancelFunc
 
-	readTimer  *time.Timer
-	readMu     *mu
-	readCtx    context.Context
-	readCancel context.CancelFunc
-	readEOFed  bool
-	reader     io.Reader
+	readTimer   *time.Timer
+	readTimerMu sync.Mutex
+	readMu      *mu
+	readCtx     context.Context
+	readCancel  context.CancelFunc
+	readEOFed   bool
+	reader      io.Reader
 }
 
 var _ net.Conn = &netConn{}
